@@ -170,4 +170,57 @@ def mine (Pp : PowParams) (Hs : Hashes) (version : Nat) (number : Nat) (difficul
   else if version = 0 ∨ version > 4 then .ok none                 -- "Mining incorrect version"
   else .ok (mineFrom Hs version number hnnBlockVersion ((Pp.maxUint256 : Int) / difficulty) fuel start)
 
+/-! ## `Seal` with n sealer threads: an interleaving model
+
+    Each `mine` goroutine owns its nonce walk and its 40-byte seed buffer (`seed := make([]byte, 40)` inside the loop).
+    One loop iteration is three atomic steps: WRITE the nonce into the buffer, HASH the buffer, COMPARE with the target (a hit
+    is sent on `found`; the first one wins, `abort` stops everybody else).  A schedule is an arbitrary list of thread indices.
+    `sharedBuf = true` is the variant in which all threads write into and hash ONE buffer (what a shared seed slice would do). -/
+
+inductive Pc where
+  | write | hash | compare | done
+  deriving Repr, DecidableEq
+
+structure Miner where
+  nonce : Nat
+  buf : Bytes        -- the thread's own seed buffer
+  res : Bytes        -- the result of its last hash
+  pc : Pc
+  deriving Repr, DecidableEq
+
+structure SealState where
+  miners : List Miner
+  shared : Bytes                      -- the single buffer of the shared variant
+  found : Option (Nat × Bytes)        -- (nonce, mix digest) of the block `Seal` returns
+  deriving Repr, DecidableEq
+
+/-- one atomic step of thread `i` (argon2id versions: the digest is zero). -/
+def sealStep (Hs : Hashes) (version : Nat) (hnn : Bytes) (target : Int) (sharedBuf : Bool) (st : SealState) (i : Nat) : SealState :=
+  match st.found with
+  | some _ => st                                        -- abort closed: the others stop
+  | none =>
+    match st.miners[i]? with
+    | none => st
+    | some m =>
+      match m.pc with
+      | .write =>
+        if sharedBuf then { st with shared := sealSeed hnn m.nonce, miners := st.miners.set i { m with pc := .hash } }
+        else { st with miners := st.miners.set i { m with buf := sealSeed hnn m.nonce, pc := .hash } }
+      | .hash =>
+        { st with miners := st.miners.set i { m with res := Hs.vh version (if sharedBuf then st.shared else m.buf), pc := .compare } }
+      | .compare =>
+        if (beNat m.res : Int) ≤ target then
+          { st with found := some (m.nonce, zeroDigest), miners := st.miners.set i { m with pc := .done } }
+        else { st with miners := st.miners.set i { m with nonce := (m.nonce + 1) % Aqv.Consensus.two64, pc := .write } }
+      | .done => st
+
+/-- the threads start at their own start nonces (`uint64(mrand.Int63())` each). -/
+def sealInit (starts : List Nat) : SealState :=
+  { miners := starts.map (fun s => { nonce := s, buf := [], res := [], pc := .write }), shared := [], found := none }
+
+/-- `Seal` under a schedule: what it returns (if some thread has hit the target by then). -/
+def sealRun (Pp : PowParams) (Hs : Hashes) (version : Nat) (difficulty : Int) (hnn : Bytes) (sharedBuf : Bool) (starts : List Nat) (schedule : List Nat) :
+    Option (Nat × Bytes) :=
+  (schedule.foldl (sealStep Hs version hnn ((Pp.maxUint256 : Int) / difficulty) sharedBuf) (sealInit starts)).found
+
 end Aqv.Pow
